@@ -63,13 +63,13 @@ class Sedov(ExactSolver):
         if self.geometry not in [1, 2, 3]:
             raise ValueError("geometry must be 1, 2, or 3")
 
-        if self.gamma < 1:
+        if self.gamma <= 1:
             raise ValueError('gamma must be greater than 1')
 
-        if self.rho0 < 0:
+        if self.rho0 <= 0:
             raise ValueError('density must be greater than 0')
 
-        if self.eblast < 0:
+        if self.eblast <= 0:
             raise ValueError('eblast must be greater than 0')
 
         # Omega must be between 0 and geometry (see Kamm&Timmes)
